@@ -868,6 +868,7 @@ def n_column_stack(I, fv, args, kwargs, node):
     items = _list_items(I, args[0]) if args else None
     if items is not None and all(I.as_num(x) is not None for x in items if not isinstance(x, (Opt, Choice))):
         return Tup(tuple(I.as_num(x) for x in items))       # one sample (scalar parameter)
+    I.emit("NOTE", node, what="column_stack", items=tuple(items or ()))
     return Unk(f"column_stack({I.tag(args[0]) if args else ''})", "array")
 
 
